@@ -428,3 +428,13 @@ def _result_depends_on_index(fns, strategy):
     if r in (None, "unknown", "raise") or not isinstance(r, ast.AST):
         return None
     return any(isinstance(x, ast.Name) and x.id == idx for x in ast.walk(r))
+
+
+_run_c25_base = run
+
+
+def run(ctx):  # noqa: F811
+    _run_c25_base(ctx)
+    # a resumed run must see the same seeds as the uninterrupted one (shared with C21)
+    from .c21 import r21_9
+    r21_9(ctx, ctx.model, rid="R25.5")
